@@ -34,7 +34,9 @@ TABLES["anonymous-with-password+alice"] = [M.UserSpec("alice", None, home="/home
 HELD = {"bob-held-by-another-session": "bob"}
 LOGIN = ["USER anonymous", "USER alice", "USER bob", "USER nobody", "USER eve", "USER carol", "USER", "PASS pw", "PASS wrong", "PASS",
          "PASS pässwörd", "PASS påsswørd", "PASS p?ssw?rd", "PASS password",
-         "PASV", "@data", "CWD /d", "RNFR /g", "REST 2"]
+         "PASV", "@data", "CWD /d", "RNFR /g", "REST 2",
+         # login names with control characters / characters that are not printable: names like any other
+         "USER bob\x1b[2J", "USER x\ty", "USER \x7f", "USER ali\u200bce"]
 PROBES = ["PWD", "CWD /d", "CDUP", "MKD /new", "RMD /home", "DELE /g", "RNFR /g", "RNTO /h2", "MLST /g", "MLSD /", "LIST /",
           "RETR /g", "STOR /up", "APPE /g", "TYPE I", "PBSZ 0", "PROT P", "PASV", "EPSV", "ABOR", "REST 1", "SYST", "FOO",
           "@data"]
